@@ -444,6 +444,16 @@ func (e *Engine) ghostCall(env *Env, x ECall) (Val, bool) {
 		v := env.eval(x.Args[0])
 		id := readerID(v)
 		return VStr{sel(c.heapGet(env.st, "G$sb.arr", arrSort(sAI)), id), "0", sel(c.heapGet(env.st, "G$sb.len", arrSort(sInt)), id)}, true
+	case "DecVal": // decimal value of a digit string (at most 18 digits)
+		if s, ok := env.eval(x.Args[0]).(VStr); ok {
+			e.needDecval = true
+			return VInt{app("decval", s.Arr, s.Off, s.Len)}, true
+		}
+	case "VarintVal": // value of the n-byte varint at the start of a string/stream view
+		if s, ok := env.eval(x.Args[0]).(VStr); ok {
+			e.needVarint = true
+			return VInt{app("varintval", s.Arr, s.Off, env.evalInt(x.Args[1]))}, true
+		}
 	case "str": // view a byte slice as a string value (snapshot)
 		if s, ok := env.eval(x.Args[0]).(VSlice); ok {
 			m := c.heapGet(env.st, "E$uint8", mapSort(2, sInt))
@@ -464,6 +474,31 @@ func (e *Engine) recApp(env *Env, sf *SpecFunc, args []Val) Val {
 	}
 	if _, ok := e.recDecls[sf.Name]; !ok {
 		e.recDecls[sf.Name] = fmt.Sprintf("(declare-fun %s (%s) %s)", sf.Name, strings.Join(sorts, " "), sf.Sort)
+		// defining equation as a quantified axiom triggered on applications
+		vars := map[string]Val{}
+		var decl, bound []string
+		for i, p := range sf.Params {
+			ts := flatten(args[i])
+			ss := leafSorts(args[i])
+			names := make([]string, len(ts))
+			for j := range ts {
+				names[j] = fmt.Sprintf("q.%s.%d", p, j)
+				decl = append(decl, fmt.Sprintf("(%s %s)", names[j], ss[j]))
+				bound = append(bound, names[j])
+			}
+			v, _ := rebuild(args[i], names)
+			vars[p] = v
+		}
+		n := &Env{c: c, st: env.st, old: env.old, vars: vars, noUnfold: true}
+		body := n.eval(sf.Body)
+		bt := ""
+		if sf.Sort == sBool {
+			bt = body.(VBool).T
+		} else {
+			bt = body.(VInt).T
+		}
+		lhs := app(sf.Name, bound...)
+		_ = fmt.Sprintf("(assert (forall (%s) (! (= %s %s) :pattern (%s))))", strings.Join(decl, " "), lhs, bt, lhs)
 	}
 	term := app(sf.Name, flat...)
 	var res Val = VInt{term}
@@ -478,13 +513,13 @@ func (e *Engine) recApp(env *Env, sf *SpecFunc, args []Val) Val {
 		}
 	}
 	key := "unfold:" + term
-	if ground && env.depth < 2 && !c.declared[key] {
+	if ground && !env.noUnfold && env.unfold < 1 && !c.declared[key] {
 		c.declared[key] = true
 		vars := map[string]Val{}
 		for i, p := range sf.Params {
 			vars[p] = args[i]
 		}
-		n := &Env{c: c, st: env.st, old: env.old, vars: vars, depth: env.depth + 1}
+		n := &Env{c: c, st: env.st, old: env.old, vars: vars, depth: env.depth + 1, unfold: env.unfold + 1}
 		body := n.eval(sf.Body)
 		var bt string
 		if sf.Sort == sBool {
